@@ -682,7 +682,8 @@ impl CompactThetaSketch {
                     theta: MAX_THETA,
                     seed_hash,
                     ordered: true,
-                    empty: true,
+                    // an exact-mode image is empty only if it holds no entries
+                    empty: num_entries == 0,
                 })
             }
             V2_PREAMBLE_ESTIMATE => {
